@@ -58,6 +58,10 @@ def corpus_bfs(tier):
         ([part("u", "fn", b"\r\n--a\r\n--a--\r\n"), part("g", None, b"(a)")], b"(a)", "utf-8", b"--a", None),
         # further header lines in a part: one name in two spellings, the same line twice, a name repeated after another one
         ([part("u", "fn", b"1", None, [("X-Meta", "one"), ("x-meta", "two")]), part("f", None, b"2", None, [("X-A", "1"), ("X-B", "b"), ("X-A", "1"), ("x-a", "3")])], b, "utf-8", None, None),
+        # names, filenames and further header values that contain the delimiter text itself ('--' + boundary): inside a header block
+        # it is text like any other
+        ([part("a--b", "--b.txt", b"1"), part("--b--", None, b"2", None, [("X-Note", "--b")]), part("x", "y--b--", b"--")], b, "utf-8", None, None),
+        ([part("k--bd", "f--bd--.bin", b"v", "text/x---bd")], b"bd", "utf-8", b"pre", None),
         # names and filenames with characters that str.splitlines() (but not a multipart parser) treats as line breaks
         ([part("a\x0bb", "f\x0cn.txt", b"1"), part("n\u2028m", None, b"2"), part("p\x85q", "r\x1es\x1dt\u2029", b"3")], b, "utf-8", None, None),
     ]
